@@ -1,8 +1,8 @@
 SPECIFICATION Spec
 CONSTANTS
   Repaired = TRUE
-  ShapeSet = {"none", "one", "two", "dflt", "anon", "hidden", "hiddendflt", "twodflt"}
-  QuxSet = {"none", "plain", "hidden", "disabled", "anon"}
+  ShapeSet = {"none", "one", "two", "dflt", "anon", "hidden", "hiddendflt", "twodflt", "deep"}
+  QuxSet = {"none", "hidden", "disabled", "anon", "twin"}
   FooArgSet = {"none", "req", "three", "dflmul", "nodescdfl"}
   FooOptSet = {"none", "two", "optmul", "nodescdfl"}
   SubArgSet = {"none", "reqmul", "nodescdfl"}
